@@ -9,6 +9,10 @@
 (* to Depth commands and printed as one JSON line.                            *)
 EXTENDS MuxPool, Sequences, Json
 CONSTANTS Depth,
+          AddGate, \* TRUE: the hand-over to the manager (PAdd) is an environment command "Add": the harness parks the provider
+                   \* at the hook point mux.provider.beforeAdd (provider.go, build tag verif), so that PeerClose of the
+                   \* attempt's session, kills of other sessions and Cancel are scheduled BETWEEN the successful Ping and
+                   \* AddConnection. FALSE: PAdd runs eagerly like every other internal step.
           Loop    \* TRUE: schedules for two REAL pools connected over loopback (establisher <-> receiver): the peer is always
                   \* reachable and well-behaved (dial / session / ping succeed at once, unrecorded), a dial parked when the
                   \* context ends fails (what establisher.go / receiver.go do); only session kills and Cancel are commands
@@ -16,13 +20,15 @@ VARIABLES hist, healing, healed
 sv == <<hist, healing, healed>>
 Cmd(r) == hist' = Append(hist, r)
 SimInit == Init /\ hist = <<>> /\ healing = FALSE /\ healed = FALSE
-Benign == DialOk \/ SessOk \/ PingOk
+Benign == DialOk \/ SessOk \/ PingOk \/ (AddGate /\ PAdd)
+Eager == IF AddGate THEN InternalButAdd ELSE Internal
 EnvStep ==
   \/ (~Loop /\ DialOk /\ Cmd([a |-> "DialOk", c |-> nextId + 1]))
   \/ (~Loop /\ DialFail /\ Cmd([a |-> "DialFail", c |-> 0]))
   \/ (~Loop /\ SessOk /\ Cmd([a |-> "SessOk", c |-> held]))
   \/ (~Loop /\ SessErr /\ Cmd([a |-> "SessErr", c |-> held]))
   \/ (~Loop /\ PingOk /\ Cmd([a |-> "PingOk", c |-> held]))
+  \/ (AddGate /\ PAdd /\ Cmd([a |-> "Add", c |-> held]))
   \/ (~Loop /\ \E k \in Kinds : PingFail(k) /\ Cmd([a |-> "PingFail", c |-> held, kind |-> k]))
   \/ (\E c \in Conn : PeerClose(c) /\ Cmd([a |-> "PeerClose", c |-> c]))
   \/ (\E c \in Conn : LocalClose(c) /\ Cmd([a |-> "LocalClose", c |-> c]))
@@ -32,7 +38,7 @@ HealStart == /\ ~Loop /\ running /\ ~healing /\ ~healed /\ ppc \in {"conn", "acq
 Pad == ~ENABLED EnvStep /\ ~ENABLED HealStart /\ Cmd([a |-> "Pad", c |-> 0]) /\ UNCHANGED <<vars, healing, healed>>
 SimNext ==
   /\ Len(hist) < Depth
-  /\ IF ENABLED Internal THEN Internal /\ UNCHANGED sv
+  /\ IF ENABLED Eager THEN Eager /\ UNCHANGED sv
      ELSE IF Loop /\ running /\ ENABLED Benign THEN Benign /\ UNCHANGED sv
      ELSE IF Loop /\ ~running /\ ppc = "conn" THEN DialFail /\ UNCHANGED sv
      ELSE IF healing THEN (IF ENABLED Benign THEN Benign /\ UNCHANGED sv
